@@ -1,7 +1,7 @@
 """C07 A shared downlink serves every consumer a complete, ordered session."""
 from mirlib import AnchorMissing, describe_call, describe_operand, describe_place, describe_rvalue, dom_guards, guards, _suffix_match
 from rules import uplinks
-from rules.common import aggregates, where
+from rules.common import named_argument_rule, aggregates, where
 
 META = {
     "explanation": (
@@ -359,3 +359,6 @@ def run(ctx):
             b = ctx.saw(b[0])
             cs = [c.name for c in b.calls if c.name in ("push_bytes", "push")]
             r.check(cs == [tgt], "%s/push_operation=>%s" % (adt.split("::")[-1], tgt), where(b), "push_operation delegates to %s" % tgt, "push_operation calls %s" % cs)
+
+    with ctx.rule("C07.R8", "T5", "named arguments are passed in their parameters' positions (no two flags or ids change places at a call site)", floor=5) as r:
+        named_argument_rule(ctx, r, [("swimos_runtime", "swimos_runtime::downlink"), ("swimos_runtime", "swimos_runtime::backpressure")], allow={})
